@@ -58,7 +58,7 @@ var props = map[string]propSpec{
 	"C06": {level: "exploration", quickRuns: 2500, thoroughRuns: 60000, runLimit: 30 * time.Second,
 		requiredProbes: []string{"multi-item-snapshot-offset", "ack-of-event-from-older-snapshot", "seqno-advanced-closing-snapshot", "stored-offset-judged", "out-of-snapshot-item-emitted"}},
 	"C13": {scenarios: []string{"C13", "C13r"}, level: "exploration", quickRuns: 2500, thoroughRuns: 60000, runLimit: 30 * time.Second,
-		requiredProbes: []string{"close:idle", "close:during-delivery", "close:save-in-flight", "shutdown-completed"}},
+		requiredProbes: []string{"close:idle", "close:during-delivery", "close:save-in-flight", "shutdown-completed", "close:during-rebalance", "notification-during-shutdown-stream-stop"}},
 	"C16": {scenarios: []string{"C16", "C16", "C16r"}, level: "exploration", quickRuns: 2500, thoroughRuns: 60000, runLimit: 30 * time.Second,
 		requiredProbes: []string{"scrape-judged", "counter-judged", "scrape-while-closed-or-closing", "scrape-inside-callback"}},
 	"C11": {level: "exploration", quickRuns: 2500, thoroughRuns: 50000, runLimit: 30 * time.Second,
@@ -70,7 +70,7 @@ var props = map[string]propSpec{
 	"C15": {level: "fault_enumeration", quickRuns: 2000, thoroughRuns: 40000, runLimit: 30 * time.Second,
 		requiredProbes: []string{"startup-fault:none", "startup-fault:ckpt-above-high", "startup-fault:load-error", "startup-fault:load-silent", "startup-fault:seqnos-error", "startup-fault:flog-error", "startup-fault:sreq-error", "startup-fault:sreq-silent", "startup-fault:bad-membership", "startup-fault:bad-metadata", "startup-fault:file-read-error", "ckpt-above-high:vb-missing-in-seqno-reply"}},
 	"C12": {scenarios: []string{"C12", "C12", "C12", "C12r"}, level: "exploration", quickRuns: 2500, thoroughRuns: 60000, runLimit: 30 * time.Second,
-		requiredProbes: []string{"transient-end", "final-end", "reopened-after-transient-end", "repeated-transient-end-same-vb", "client-stopped-after-last-final-end", "finite-completion", "active-streams-judged", "end-cause:socket-closed", "five-reopen-failures", "finite-completion-after-rebalance"}},
+		requiredProbes: []string{"transient-end", "final-end", "reopened-after-transient-end", "repeated-transient-end-same-vb", "client-stopped-after-last-final-end", "finite-completion", "active-streams-judged", "end-cause:socket-closed", "five-reopen-failures", "finite-completion-after-rebalance", "reopened-after-transient-end:filtered-stream"}},
 	"C07": {level: "exploration", quickRuns: 3500, thoroughRuns: 50000, runLimit: 30 * time.Second,
 		requiredProbes: []string{"event-arrived-before-its-coverage", "event-waited-at-the-gate", "wake-up-judged", "threshold-gauge-judged", "close-with-rollback-mitigation"}},
 	"C19": {level: "fault_enumeration", quickRuns: 4000, thoroughRuns: 100000, runLimit: 20 * time.Second,
